@@ -12,6 +12,23 @@ NOT_BUILT = "check not built yet in this round (claimed by DESIGN.md; " \
             "listed here until its static check exists and is exact)"
 
 CHECKS = {
+    "C20": {
+        "text": "NARROW: decides that the position distance is |i-j| "
+                "(symmetric store of j-i over all j>i into a zero matrix), "
+                "that the only flow store is skipped exactly on the "
+                "diagonal and beyond the horizon, that the stored flow "
+                "depends on (i,j) only through the row-wise rank, and - by "
+                "a monotonicity analysis of the expression tree under "
+                "checked sign facts - that it is non-increasing in the "
+                "rank.",
+        "design_ref": "DESIGN.md section 4, C20",
+        "note": "Does NOT decide the merging of zero-distance objects, the "
+                "representative index mapping, nor minimality of "
+                "swap_distance (only its index safety, under C13). "
+                "Trusted: scipy.stats.rankdata semantics.",
+        "technique": "structural store/skip rules + dependence (names) "
+                     "analysis + syntax-directed monotonicity analysis",
+    },
     "C10": {
         "text": "NARROW: decides the clauses of the simulation contract "
                 "that are shapes of the code: at most 5 integration cycles "
